@@ -63,6 +63,16 @@ class Repo:
         self._index(mi, tree.body, pkg)
         return mi
 
+    def load_module_file(self, name, path):
+        """index a module that lives outside the repository root (pyvc's own self-test sources)"""
+        text = open(path).read()
+        tree = ast.parse(text)
+        mi = ModInfo(name, path, tree, text)
+        mi.lines = text.split("\n")
+        self.mods[name] = mi
+        self._index(mi, tree.body, name.rsplit(".", 1)[0])
+        return mi
+
     def _index(self, mi, body, pkg):
         for st in body:
             if isinstance(st, ast.FunctionDef):
